@@ -49,14 +49,18 @@ class Report:
 
         return _B()
 
-    def run_borrowed(self, module, mapping, repo):
+    def run_borrowed(self, module, mapping, repo, only_sites=None):
         """Run another property's rules and keep only the instances of the rules in `mapping`, re-labelled as this
         property's own rule ids. A borrow requested while already borrowing is skipped: shared clauses are one level
         deep (this also breaks cycles such as C06 <-> C09)."""
         if self._borrow is not None:
             return
-        with self.borrow(mapping):
-            module.run(repo, self)
+        self._borrow_sites = tuple(only_sites) if only_sites else None
+        try:
+            with self.borrow(mapping):
+                module.run(repo, self)
+        finally:
+            self._borrow_sites = None
 
     # ---- declaring
     def clause(self, rule, text):
@@ -73,6 +77,8 @@ class Report:
 
     def floor(self, rule, n):
         if self._borrow is not None:
+            if getattr(self, "_borrow_sites", None):
+                return  # a site-filtered borrow keeps a subset of the instances: the lender's floor does not apply
             if rule in self._borrow:
                 self.floors[self._borrow[rule]] = n
             return
@@ -82,6 +88,8 @@ class Report:
     def _add(self, status, rule, site, construct, detail):
         if self._borrow is not None:
             if rule not in self._borrow:
+                return
+            if getattr(self, "_borrow_sites", None) and not any(x in site for x in self._borrow_sites):
                 return
             rule = self._borrow[rule]
         construct = " ".join(str(construct).split())
